@@ -133,9 +133,12 @@ def AfterSound (rtl : Bool) (n : Nat) (after : Nat → Nat) (attempt : Nat → O
     if rtl then after q ≤ q ∧ ∀ p, after q ≤ p → p < q → attempt p = none
     else q ≤ after q ∧ after q ≤ n ∧ ∀ p, q < p → p ≤ after q → attempt p = none
 
-/-- `MinRequiredLength` is a lower bound of the length of every overall match. -/
-def MinLenSound (n L : Nat) (attempt : Nat → Option (Nat × Nat)) : Prop :=
-  ∀ p i l, p ≤ n → attempt p = some (i, l) → L ≤ l
+/-- `MinRequiredLength` is a lower bound on the input that remains, in scan direction, from the
+    position of every successful attempt.  (It is published and consumed as "the input must have at
+    least this many runes from here on"; with a leading positive lookahead it can exceed the length
+    of the match itself, so it is not stated as a bound on the match length.) -/
+def MinLenSound (rtl : Bool) (n L : Nat) (attempt : Nat → Option (Nat × Nat)) : Prop :=
+  ∀ p i l, p ≤ n → attempt p = some (i, l) → if rtl then L ≤ p else L ≤ n - p
 
 /-! ### iteration: first match, FindNextMatch, find-all -/
 
@@ -151,7 +154,7 @@ structure Engine.Sound (E : Engine) (rtl : Bool) (n : Nat) : Prop where
   shape : ∀ ts, ts ≤ n → AttemptShape rtl n (E.attempt ts)
   finder : ∀ ts, ts ≤ n → FinderSound rtl n (E.finder ts) (E.attempt ts)
   after : ∀ ts, ts ≤ n → AfterSound rtl n (E.after ts) (E.attempt ts)
-  minLen : ∀ ts, ts ≤ n → MinLenSound n E.minLen (E.attempt ts)
+  minLen : ∀ ts, ts ≤ n → MinLenSound rtl n E.minLen (E.attempt ts)
 
 /-- `runner.scan(input, _, start, prevLen, …)`: `\G` is bound to `start` -/
 def scanAt (E : Engine) (rtl : Bool) (n : Nat) (start : Nat) (prevLen : Int) : Option Hit :=
